@@ -55,6 +55,8 @@ POLARS_CAVEATS[("as_str", "cast")] = ("Expr.cast(String) spells a Boolean 'true'
                                       "gives 'True' / 'False' and '1e-07' — b.as_str() == 'True' keeps 2 rows on Pandas and none on Polars, and text built from numbers differs as a "
                                       "group or join key")
 POLARS_UNSIGNED_RESULTS = {"n_unique"}
+# predicates that answer a truth value for a missing argument on Pandas (numpy.isinf / numpy.isnan over NaN) and in the SQL templates
+POLARS_NULL_PREDICATES = {"is_inf": False}  # is_nan of a missing value stays null on purpose (tests/test_polars.py::test_is_inf_polars: "Polars can tell the difference")
 CAVEAT_LIFTED_BY = {("nunique", "n_unique"): "drop_nulls", ("first", "first"): "drop_nulls", ("last", "last"): "drop_nulls"}
 KEYWORD_CONSTRAINTS = {("bfill", "fill_null"): ("strategy", "backward"), ("ffill", "fill_null"): ("strategy", "forward")}
 BINOPS = {"-": ast.Sub, "+": ast.Add, "*": ast.Mult, "/": ast.Div, "//": ast.FloorDiv, "%": ast.Mod, "**": ast.Pow, "%/%": ast.Div,
@@ -327,6 +329,21 @@ def _s3(program, res):
                          f"{tname}[{op!r}] returns Polars' `{body.func.attr}()` as it is (UInt32): project({{'n': 'x.nunique()'}}).extend({{'d': '-n'}}) gives 4294967294 "
                          f"where Pandas gives -2 — cast the count to Int64", "data_algebra/polars_model.py", node.lineno)
                 continue
+            # a trailing .fill_null(<constant>): the answer for a missing value
+            null_answer = "absent"
+            if isinstance(body, ast.Call) and isinstance(body.func, ast.Attribute) and body.func.attr == "fill_null" and len(body.args) == 1 \
+                    and isinstance(body.args[0], ast.Constant) and isinstance(body.func.value, ast.Call):
+                null_answer = body.args[0].value
+                body = body.func.value
+            if op in POLARS_NULL_PREDICATES:
+                want_answer = POLARS_NULL_PREDICATES[op]
+                if null_answer != want_answer:
+                    n_decided += 1
+                    res.fail("C03-S3", f"polars_model:{tname}", f"entry:{op}:null-answer",
+                             f"{tname}[{op!r}] is `{unparse(node.body if isinstance(node, ast.Lambda) else node)[:60]}`: for a missing value Polars answers null, Pandas (numpy) and SQL answer "
+                             f"{want_answer} — select_rows('not x.{op}()') keeps the row with the missing x on Pandas and SQLite and drops it on Polars",
+                             "data_algebra/polars_model.py", node.lineno)
+                    continue
             prefixes = set()
             if isinstance(body, ast.Call) and isinstance(body.func, ast.Attribute) and isinstance(body.func.value, ast.Call) \
                     and isinstance(body.func.value.func, ast.Attribute) and body.func.value.func.attr in ("drop_nulls", "drop_nans") \
